@@ -1,5 +1,5 @@
 (** Proofs about Model/Incremental.v (property C38). *)
-From ZV Require Import Lib.Base Model.Incremental.
+From ZV Require Import Lib.Base Model.HashProg Model.Incremental.
 From Coq Require Import String.
 Notation get := Incremental.get.
 
@@ -245,23 +245,201 @@ Qed.
 Lemma get_other (f g : string) v : f <> g -> get [(f, v)] g = None.
 Proof. intros H. simpl. destruct (String.eqb f g) eqn:E; [apply String.eqb_eq in E; contradiction|reflexivity]. Qed.
 
+(** ---- list lemmas for the token stream *)
+Lemma app_inj_length {A} (a c b d : list A) :
+  List.length a = List.length c -> a ++ b = c ++ d -> a = c /\ b = d.
+Proof.
+  revert c. induction a as [|x a IH]; intros [|y c] Hl E; simpl in *; try discriminate; auto.
+  injection E as Hx Hr. injection Hl as Hl. destruct (IH c Hl Hr) as [Ha Hb]. subst. auto.
+Qed.
+
+Lemma concat_map_pointwise {A B} (g1 g2 : A -> list B) l :
+  (forall x, In x l -> List.length (g1 x) = List.length (g2 x)) ->
+  List.concat (map g1 l) = List.concat (map g2 l) -> forall x, In x l -> g1 x = g2 x.
+Proof.
+  induction l as [|a l IH]; intros Hlen E x Hin; simpl in *; [contradiction|].
+  destruct (app_inj_length _ _ _ _ (Hlen a (or_introl eq_refl)) E) as [Ha Hr].
+  destruct Hin as [<-|Hin]; [exact Ha|]. apply IH; auto.
+Qed.
+
+Lemma filter_all {A} (P : A -> bool) l : (forall t, In t l -> P t = true) -> filter P l = l.
+Proof.
+  induction l as [|a l IH]; intros Hp; simpl; [reflexivity|].
+  rewrite (Hp a (or_introl eq_refl)). f_equal. apply IH. intros t Ht. apply Hp. right. exact Ht.
+Qed.
+Lemma filter_none {A} (P : A -> bool) l : (forall t, In t l -> P t = false) -> filter P l = [].
+Proof.
+  induction l as [|a l IH]; intros Hp; simpl; [reflexivity|].
+  rewrite (Hp a (or_introl eq_refl)). apply IH. intros t Ht. apply Hp. right. exact Ht.
+Qed.
+
+Lemma filter_concat_map {A B} (P : B -> bool) (Q : A -> bool) (g : A -> list B) l :
+  (forall x, In x l -> forall t, In t (g x) -> P t = Q x) ->
+  filter P (List.concat (map g l)) = List.concat (map g (filter Q l)).
+Proof.
+  induction l as [|a l IH]; intros Hpq; simpl; [reflexivity|].
+  rewrite filter_app, IH by (intros x Hx; apply Hpq; right; exact Hx).
+  destruct (Q a) eqn:Hq; simpl.
+  - f_equal. apply filter_all. intros t Ht. rewrite (Hpq a (or_introl eq_refl) t Ht). exact Hq.
+  - rewrite filter_none; [reflexivity|]. intros t Ht. rewrite (Hpq a (or_introl eq_refl) t Ht). exact Hq.
+Qed.
+
+Lemma map_inj {A B} (f : A -> B) : (forall x y, f x = f y -> x = y) -> forall l1 l2, map f l1 = map f l2 -> l1 = l2.
+Proof.
+  intros Hf l1. induction l1 as [|x l1 IH]; intros [|y l2] E; simpl in E; try discriminate; [reflexivity|].
+  injection E as Hx Hr. f_equal; auto.
+Qed.
+
+(** ---- the tokens of one item determine the effective value of its field *)
+Definition tok_fmt (t : token) : string := match t with Tok f _ => f end.
+
+Lemma value_tokens_fmt form fm v t : In t (value_tokens form fm v) -> tok_fmt t = fm.
+Proof.
+  unfold value_tokens. destruct form; destruct v; simpl; try tauto;
+    try (intros [<-|[]]; reflexivity).
+  intros Hin. apply in_map_iff in Hin. destruct Hin as (kn & <- & _). reflexivity.
+Qed.
+
+Lemma item_tokens_fmt it o t : In t (item_tokens it o) -> tok_fmt t = hi_fmt it.
+Proof.
+  unfold item_tokens. destruct (get o (hi_field it)) as [v|].
+  - destruct (guard_holds (hi_guard it) v); [apply value_tokens_fmt|intros []].
+  - intros [<-|[]]. reflexivity.
+Qed.
+
+Definition entry_tok (fm : string) (kn : str * N) : token := Tok fm [VStr (fst kn); VInt (Z.of_N (snd kn))].
+Lemma entry_tok_inj fm x y : entry_tok fm x = entry_tok fm y -> x = y.
+Proof.
+  destruct x as [k n], y as [k' n']. unfold entry_tok. simpl. intros E. injection E as Hk Hn.
+  apply N2Z.inj in Hn. congruence.
+Qed.
+
+Definition form_known (f : hform) : bool := match f with FUnknown _ => false | _ => true end.
+
+Lemma value_tokens_inj form fm v1 v2 :
+  form_known form = true -> value_tokens form fm v1 = value_tokens form fm v2 -> v1 = v2.
+Proof.
+  intros Hk. destruct form as [| |src]; [| |discriminate Hk].
+  - destruct v1, v2; simpl; intros E; injection E as E; congruence.
+  - destruct v1 as [z1|b1|s1|l1|m1], v2 as [z2|b2|s2|l2|m2]; simpl; intros E;
+      try (injection E as E; congruence);
+      try (destruct m1 as [|x [|y m1]]; simpl in E; discriminate E);
+      try (destruct m2 as [|x [|y m2]]; simpl in E; discriminate E).
+    f_equal. eapply map_inj; [|exact E]. intros x y. apply (entry_tok_inj fm).
+Qed.
+
+Lemma value_tokens_not_missing form fm v : value_tokens form fm v <> [Tok fm []].
+Proof.
+  destruct form; destruct v as [z|b|s|l|m]; simpl; try discriminate.
+  destruct m as [|x [|y m]]; simpl; discriminate.
+Qed.
+
+Lemma value_tokens_nil form fm v :
+  form_known form = true -> value_tokens form fm v = [] -> form = FSortedEntries /\ v = VMap [].
+Proof.
+  intros Hk. destruct form as [| |src]; [| |discriminate Hk]; destruct v as [z|b|s|l|m]; simpl; try discriminate.
+  destruct m; [auto|discriminate].
+Qed.
+
+Lemma norm_not_normed normed defaults f v : in_strs f normed = false -> norm normed defaults f v = v.
+Proof. unfold norm, in_strs. intros ->. reflexivity. Qed.
+
+Lemma item_tokens_inj normed defaults it o1 o2 :
+  item_ok normed defaults it = true -> item_tokens it o1 = item_tokens it o2 ->
+  option_map (norm normed defaults (hi_field it)) (get o1 (hi_field it)) =
+  option_map (norm normed defaults (hi_field it)) (get o2 (hi_field it)).
+Proof.
+  destruct it as [f fm g form]. unfold item_tokens, item_ok. cbn [hi_field hi_fmt hi_guard hi_form].
+  intros Hok E.
+  assert (form_known form = true) as Hk by (destruct form; [reflexivity|reflexivity|discriminate Hok]).
+  destruct (get o1 f) as [v1|], (get o2 f) as [v2|]; cbn [option_map]; [| | |reflexivity].
+  2:{ exfalso. destruct (guard_holds g v1); [|discriminate E]. exact (value_tokens_not_missing _ _ _ E). }
+  2:{ exfalso. destruct (guard_holds g v2); [|discriminate E]. symmetry in E. exact (value_tokens_not_missing _ _ _ E). }
+  f_equal.
+  destruct (guard_holds g v1) eqn:H1, (guard_holds g v2) eqn:H2.
+  - f_equal. eapply value_tokens_inj; eauto.
+  - (* v1 written as nothing although its guard holds: an empty map under an unconditional / len>0 guard *)
+    destruct (value_tokens_nil _ _ _ Hk E) as [-> ->].
+    destruct g; try discriminate Hok; simpl in H1; try discriminate H1.
+    (* GNone: guard of v2 cannot fail *) simpl in H2. destruct v2; discriminate H2.
+  - symmetry in E. destruct (value_tokens_nil _ _ _ Hk E) as [-> ->].
+    destruct g; try discriminate Hok; simpl in H2; try discriminate H2.
+    simpl in H1. destruct v1; discriminate H1.
+  - (* both omitted: the same effective value *)
+    destruct g as [|d| | |src].
+    + destruct v1; discriminate H1.
+    + destruct form; try discriminate Hok.
+      apply andb_true_iff in Hok. destruct Hok as [Hn Hd].
+      destruct (find (fun p => String.eqb (fst p) f) defaults) as [[k d']|] eqn:Hf; [|discriminate Hd].
+      apply Z.eqb_eq in Hd. subst d'.
+      assert (forall v, guard_holds (GIntNotZeroNotConst d) v = false -> norm normed defaults f v = VInt d) as Hnorm.
+      { intros v Hv. unfold norm. unfold in_strs in Hn. rewrite Hn. destruct v as [z| | | |]; simpl in Hv; try discriminate Hv.
+        apply andb_false_iff in Hv. destruct Hv as [Hv|Hv]; apply negb_false_iff in Hv; apply Z.eqb_eq in Hv; subst z.
+        - rewrite Hf. reflexivity.
+        - destruct d; [rewrite Hf|..]; reflexivity. }
+      rewrite (Hnorm v1 H1), (Hnorm v2 H2). reflexivity.
+    + assert (forall v, guard_holds GStrNonEmpty v = false -> v = VStr []) as Hs.
+      { intros v Hv. destruct v as [| |s| |]; simpl in Hv; try discriminate Hv. destruct s; [reflexivity|discriminate Hv]. }
+      rewrite (Hs v1 H1), (Hs v2 H2). reflexivity.
+    + assert (forall v, guard_holds GLenPositive v = false -> v = VMap []) as Hs.
+      { intros v Hv. destruct v as [| | | |m]; simpl in Hv; try discriminate Hv. destruct m; [reflexivity|discriminate Hv]. }
+      rewrite (Hs v1 H1), (Hs v2 H2). reflexivity.
+    + destruct form; discriminate Hok.
+Qed.
+
+Lemma always_item_length it o : always_item it = true -> List.length (item_tokens it o) = 1%nat.
+Proof.
+  destruct it as [f fm g form]. unfold always_item, item_tokens. cbn [hi_field hi_fmt hi_guard hi_form].
+  destruct g; try discriminate. destruct form; try discriminate. intros _.
+  destruct (get o f) as [v|]; [|reflexivity]. destruct v; reflexivity.
+Qed.
+
+(** the token stream of the whole program determines the tokens of each item *)
+Lemma hash_tokens_item prog o1 o2 it :
+  In it prog -> group_ok prog it = true -> hash_tokens prog o1 = hash_tokens prog o2 ->
+  item_tokens it o1 = item_tokens it o2.
+Proof.
+  intros Hin Hg E.
+  pose (P := fun t : token => String.eqb (tok_fmt t) (hi_fmt it)).
+  assert (filter P (hash_tokens prog o1) = filter P (hash_tokens prog o2)) as EF by (rewrite E; reflexivity).
+  unfold hash_tokens in EF.
+  rewrite !(filter_concat_map P (same_fmt it)) in EF
+    by (intros x _ t Ht; unfold P, same_fmt; rewrite (item_tokens_fmt _ _ _ Ht); reflexivity).
+  unfold group_ok in Hg. cbv zeta in Hg.
+  assert (In it (filter (same_fmt it) prog)) as Hing
+    by (apply filter_In; split; [exact Hin|unfold same_fmt; apply String.eqb_refl]).
+  apply orb_true_iff in Hg. destruct Hg as [Hl|Ha].
+  - destruct (filter (same_fmt it) prog) as [|a [|b g]]; [contradiction| |discriminate Hl].
+    destruct Hing as [<-|[]]. simpl in EF. rewrite !app_nil_r in EF. exact EF.
+  - apply (concat_map_pointwise (fun j => item_tokens j o1) (fun j => item_tokens j o2) (filter (same_fmt it) prog)); auto.
+    intros x Hx. rewrite forallb_forall in Ha. rewrite !always_item_length by (apply Ha; exact Hx). reflexivity.
+Qed.
+
 Section Hash.
   Variable hashT : Type.
   Variable heqb : hashT -> hashT -> bool.
   Hypothesis heqb_spec : forall a b, heqb a b = true <-> a = b.
-  Variable H : list (option val) -> hashT.
+  Variable H : list token -> hashT.
   Hypothesis H_inj : forall a b, H a = H b -> a = b.
   Variable rv : list (N * N).
-  Variables (normed : list string) (defaults : list (string * Z)) (hashed : list string).
+  Variables (normed : list string) (defaults : list (string * Z)) (prog : list hitem) (unrec : list string).
+  Hypothesis prog_is_ok : prog_ok normed defaults prog unrec = true.
+  Let hashed := map hi_field prog.
 
-  Notation get_hash := (get_hash hashT H normed defaults hashed).
+  Notation get_hash := (get_hash hashT H prog).
   Notation eff o f := (option_map (norm normed defaults f) (get o f)).
 
   Lemma get_hash_eq_fields o1 o2 :
     get_hash o1 = get_hash o2 -> forall f, In f hashed -> eff o1 f = eff o2 f.
   Proof.
-    unfold Incremental.get_hash, hash_input. intros E. apply H_inj in E.
-    intros f Hf. exact (map_eq_pointwise _ _ _ E f Hf).
+    unfold Incremental.get_hash. intros E. apply H_inj in E.
+    intros f Hf. apply in_map_iff in Hf. destruct Hf as (it & <- & Hit).
+    unfold prog_ok in prog_is_ok.
+    apply andb_true_iff in prog_is_ok. destruct prog_is_ok as [Hp Hgrp].
+    apply andb_true_iff in Hp. destruct Hp as [_ Hitems].
+    rewrite forallb_forall in Hgrp, Hitems.
+    apply item_tokens_inj; [apply Hitems; exact Hit|].
+    apply (hash_tokens_item prog); auto.
   Qed.
 
   (** [built_with repos desc o1]: every live record of the requested name in the shard was written by a build
@@ -301,14 +479,15 @@ Section Hash.
     ~ In f hashed -> v1 <> v2 -> version_mismatch rv fmt feat = false ->
     exists o1 o2 desc,
       get o1 f = Some v1 /\ get o2 f = Some v2 /\
-      index_state_with hashT heqb rv (get_hash o2) (build_disk hashT H normed defaults hashed fmt feat o1 desc) desc = SEqual.
+      index_state_with hashT heqb rv (get_hash o2) (build_disk hashT H prog fmt feat o1 desc) desc = SEqual.
   Proof.
     intros Hnin Hne Hv. exists [(f, v1)], [(f, v2)], witness_desc.
     split; [simpl; rewrite String.eqb_refl; reflexivity|].
     split; [simpl; rewrite String.eqb_refl; reflexivity|].
     assert (get_hash [(f, v1)] = get_hash [(f, v2)]) as Hh.
-    { unfold Incremental.get_hash, hash_input. f_equal. apply map_ext_in. intros g Hg.
-      assert (f <> g) by (intros ->; contradiction). rewrite !get_other by assumption. reflexivity. }
+    { unfold Incremental.get_hash, hash_tokens. do 2 f_equal. apply map_ext_in. intros it Hit.
+      assert (f <> hi_field it) by (intros ->; apply Hnin; apply in_map; exact Hit).
+      unfold item_tokens. rewrite !get_other by assumption. reflexivity. }
     unfold build_disk. cbn [index_state_with]. rewrite Hv.
     cbn [filter build_record r_tombstone negb find r_name witness_desc]. rewrite str_eqb_refl.
     unfold build_record at 1. cbn [r_hash].
@@ -318,7 +497,7 @@ Section Hash.
 End Hash.
 
 (** ---- a concrete instance of the abstract hash (non-vacuity of the hypotheses of Section Hash):
-    hashT := the hashed tuple itself, H := identity (trivially injective), heqb from decidable equality. *)
+    hashT := the token list itself, H := identity (trivially injective), heqb from decidable equality. *)
 Definition str_eq_dec : forall a b : str, {a = b} + {a <> b} := list_eq_dec N.eq_dec.
 Definition val_eq_dec : forall a b : val, {a = b} + {a <> b}.
 Proof.
@@ -329,8 +508,8 @@ Proof.
   - apply (list_eq_dec str_eq_dec).
   - apply list_eq_dec. decide equality; [apply N.eq_dec | apply str_eq_dec].
 Defined.
-Definition oval_eq_dec : forall a b : option val, {a = b} + {a <> b}.
-Proof. decide equality. apply val_eq_dec. Defined.
-Definition id_hash_eqb (a b : list (option val)) : bool := if list_eq_dec oval_eq_dec a b then true else false.
+Definition token_eq_dec : forall a b : token, {a = b} + {a <> b}.
+Proof. decide equality; [apply (list_eq_dec val_eq_dec)|apply string_dec]. Defined.
+Definition id_hash_eqb (a b : list token) : bool := if list_eq_dec token_eq_dec a b then true else false.
 Lemma id_hash_eqb_spec a b : id_hash_eqb a b = true <-> a = b.
-Proof. unfold id_hash_eqb. destruct (list_eq_dec oval_eq_dec a b); split; intros; auto; discriminate. Qed.
+Proof. unfold id_hash_eqb. destruct (list_eq_dec token_eq_dec a b); split; intros; auto; discriminate. Qed.
